@@ -74,6 +74,20 @@ CLAIMED['C06'] = dict(
          '(object level); SimCluster (end to end). Known finding F16 (loss of the Master itself) exempted by a TLA+ '
          'signature.')
 
+CLAIMED['C15'] = dict(
+    engine='AppStatus',
+    technique='definition-level TLA+ spec (AppStatus.tla) enumerated by TLC (all state vectors, all formula trees to a '
+              'depth) + each case realised on a real ApplicationStatus of a live node and compared with the admitted '
+              'outcomes + table of unsupported construct classes under an audit hook',
+    text='The property is a case-rich definition: the spec transcribes the documented rule (not the code), TLC emits '
+         'every input of the finite space with the set of admitted outcomes, and each input is executed on real objects '
+         '(real process events, real rules files for the required flags, real formula setter / parser) and observed '
+         'through get_application_info; "spec differs from code on an enumerated input" is the property failing.',
+    design_ref='DESIGN.md 3 C15',
+    note='Trusted: SimCluster live node; hostile formulas are covered as classes of constructs rendered to concrete '
+         'sources, not as arbitrary strings; inertness observed with sys.addaudithook (import/exec/compile/open/'
+         'subprocess/socket events other than the evaluator\'s own any([...])/all([...])).')
+
 PENDING_REASON = 'check not built yet (work in progress; see DESIGN.md section 3)'
 
 
